@@ -52,7 +52,13 @@ def build(plan, fault, rnd):
     for i, it in enumerate(items):
         k = i + 1
         if it["kind"] == "def":
-            groups[it["el"]].append(party(it["el"], ident=ids[k], rnd=rnd))
+            pn = party(it["el"], ident=ids[k], rnd=rnd)
+            if fault[0] == "duplicate-id-nested" and fault[1] == k:
+                ad = Node("address")
+                ad.add_attribute("id", ids[k])
+                ad.add_child(Node("city", content="Z"))
+                pn.add_child(ad, index=1)
+            groups[it["el"]].append(pn)
         else:
             tgt = "id-that-does-not-exist" if (fault[0] == "dangling" and fault[1] == k) else ids[it["tgt"]]
             groups[it["el"]].append(party(it["el"], ref=tgt, rnd=rnd))
